@@ -9,7 +9,7 @@ use mdns_sd::ServiceInfo;
 use serde_json::{json, Value};
 use std::net::{IpAddr, Ipv6Addr, SocketAddr, SocketAddrV6};
 
-#[derive(Clone)]
+#[derive(Clone, Debug)]
 pub struct Svc {
     pub ty: String,      // "_http._tcp.local." or with subtype "_x._sub._http._tcp.local."
     pub inst: String,
